@@ -77,21 +77,34 @@ def run_case(args):
             os.unlink(dbfn)
 
 
-def mismatch(exp_final, obs):
+FIELD_KEY = {"seqid": "seqid", "source": "source", "featuretype": "ftype", "score": "score", "strand": "strand", "frame": "frame"}
+
+
+def set_valued(snap, fmf):
+    """a column named in force_merge_fields holds "the comma-joined SET of values seen": the order of the parts is not part of the statement"""
+    for f in snap["feats"]:
+        for name in fmf:
+            k = FIELD_KEY.get(name)
+            if k and isinstance(f.get(k), list):
+                f[k] = enc(",".join(sorted(dec(f[k]).split(","))))
+    return snap
+
+
+def mismatch(exp_final, obs, fmf=()):
     """compare the final state (and the raise status) of an executed history with the model's snapshot"""
     raised, snap = obs[-1]
     if exp_final["st"] == "raise":
         return None if raised is not None else "not_raised"
     if raised is not None:
         return "raised:" + raised
-    return G.diff_clause(G.canon_snap(exp_final["db"]), G.canon_snap(snap))
+    return G.diff_clause(set_valued(G.canon_snap(exp_final["db"]), fmf), set_valued(G.canon_snap(snap), fmf))
 
 
 def judge_all(ctx, hists, finals, observed, label):
     """first judgement against the intended model, second against the model with the known deviations"""
     bad = []
     for i, (e, o) in enumerate(zip(finals, observed)):
-        m = mismatch(e, o)
+        m = mismatch(e, o, hists[i]["init"]["cfg"]["fmf"])
         if m:
             bad.append((i, m))
     if not bad:
@@ -103,7 +116,7 @@ def judge_all(ctx, hists, finals, observed, label):
         for name in known:
             exp2 = G.model(ctx, sub, deviations=[name], label="second judgement with %s (%s)" % (name, label))
             for (i, m), e2 in zip(bad, exp2):
-                if i not in explained and mismatch(e2["traj"][-1], observed[i]) is None:
+                if i not in explained and mismatch(e2["traj"][-1], observed[i], hists[i]["init"]["cfg"]["fmf"]) is None:
                     explained[i] = name
     for i, m in bad:
         if i in explained:
@@ -224,12 +237,12 @@ def replay(ctx, rec):
     h = {"init": c["init"], "steps": c["steps"], "rel": False}
     e = G.model(ctx, [h], workers=1)[0]
     o = run_reuse(h) if c.get("reuse_after_merge") else execute(h["init"]["feats"], h["init"]["cfg"], h["steps"], ":memory:")
-    m = mismatch(e["traj"][len(o) - 1], o)
+    m = mismatch(e["traj"][len(o) - 1], o, h["init"]["cfg"]["fmf"])
     if not m:
         return False
     for name in core.known_names("C05"):
         e2 = G.model(ctx, [h], deviations=[name], workers=1)[0]
-        if mismatch(e2["traj"][len(o) - 1], o) is None:
+        if mismatch(e2["traj"][len(o) - 1], o, h["init"]["cfg"]["fmf"]) is None:
             print("KNOWN-FINDING: property=C05 %s" % name)
             return False
     return True
